@@ -224,3 +224,8 @@ def run(ctx):
     argbind.solver_argument_binding(ctx)
     # the systems solved in strong form are A.strong_form(): its term (inverse mass matrix of (range, dual) times weak form) is C14's rule
     c14.homomorphism(ctx)
+    from .. import gridfun as _gf
+    from . import c10 as _c10
+
+    _gf.representations(ctx)  # (tools/wiring.py) right-hand sides are read as projections / coefficients, solutions returned as coefficient vectors
+    _c10.compat(ctx)
